@@ -412,6 +412,22 @@ def runParse (ws : List String) : Option String := do
       pure ("ok " ++ enc ++ " | " ++ again ++ " | " ++ showVal rows t (some q.xtring))
   | _ => none
 
+/-- `pparse <t> <tokens> | <data rows>`: as `parse`, with the precedence parser (minimally parenthesised text) -/
+def runPParse (ws : List String) : Option String := do
+  match splitSections ws "|" with
+  | [t :: tws, xws] =>
+    let t ← t.toInt?
+    let toks ← tws.mapM tok?
+    let rows ← xws.mapM parseRow
+    match parsePrecEqn toks with
+    | none => pure "err:parse"
+    | some q =>
+      let enc := match q with
+        | .eq l r => "= " ++ encExpr l ++ " " ++ encExpr r
+        | .bare e => "e " ++ encExpr e
+      pure ("ok " ++ enc ++ " | " ++ showVal rows t (some q.xtring))
+  | _ => none
+
 def step (line : String) : String :=
   match words line with
   | ["pf", n] => match PF.ofName? n with
@@ -428,6 +444,16 @@ def step (line : String) : String :=
   | "kwnorm" :: rest => " ".intercalate ("ok" :: (normaliseKeywords (rest.map String.toList)).map String.ofList)
   | "subs" :: rest => (runSubs rest).getD "bad-op"
   | "parse" :: rest => (runParse rest).getD "bad-op"
+  | "pparse" :: rest => (runPParse rest).getD "bad-op"
+  | "strfy" :: rest =>
+    -- `strfy <rat>@<decimals> ...` -> the texts joined by commas (as `_stringify` prints an iterable) and the values re-read
+    match rest.mapM (fun w => match w.splitOn "@" with
+        | [q, k] => do let q ← parseRat? q; let k ← k.toNat?; pure (q, k)
+        | _ => none) with
+    | some qs =>
+      let ts := stringifyList qs
+      "ok " ++ ",".intercalate (ts.map DecText.render) ++ " | " ++ " ".intercalate (ts.map (fun t => showRat (rereadDec t)))
+    | none => "bad-op"
   | "prep" :: rest => (runPrep rest).getD "bad-op"
   | "model" :: rest => (runModel rest).getD "bad-op"
   | _ => "bad-op"
